@@ -453,3 +453,113 @@ func verifSeed(s uint64) uint64 {
 	}
 	return s
 }
+
+// C01: U is the pair count and, in the exact branch, P is the conditional
+// probability over all relabellings of the pooled values (brute force).
+func TestBoundedMWExact(t *testing.T) {
+	r := metaRng(verifSeed(5871781006564002453))
+	nfail, cases := 0, 0
+	fail := func(s string) {
+		nfail++
+		if nfail <= 5 {
+			fmt.Println("BOUNDED-FAIL " + s)
+		}
+	}
+	pairU := func(a, b []float64) float64 {
+		u := 0.0
+		for _, x := range a {
+			for _, y := range b {
+				if x > y {
+					u++
+				} else if x == y {
+					u += 0.5
+				}
+			}
+		}
+		return u
+	}
+	trials := metaTrials()
+	if trials > 3000 {
+		trials = 3000
+	}
+	for trial := 0; trial < trials; trial++ {
+		n1, n2 := 1+r.next(5), 1+r.next(5)
+		x1, x2 := metaSample(&r, n1), metaSample(&r, n2)
+		if trial%3 == 0 { // untied
+			for i := range x1 {
+				x1[i] = float64(i*2) + float64(r.next(2))*0.25
+			}
+			for i := range x2 {
+				x2[i] = float64(i*2) + 1 + float64(r.next(2))*0.25
+			}
+		}
+		pooled := append(append([]float64(nil), x1...), x2...)
+		n := len(pooled)
+		u := pairU(x1, x2)
+		le, ge, total := 0, 0, 0
+		for mask := 0; mask < 1<<uint(n); mask++ {
+			var a, b []float64
+			for i := 0; i < n; i++ {
+				if mask>>uint(i)&1 == 1 {
+					a = append(a, pooled[i])
+				} else {
+					b = append(b, pooled[i])
+				}
+			}
+			if len(a) != n1 {
+				continue
+			}
+			total++
+			up := pairU(a, b)
+			if up <= u {
+				le++
+			}
+			if up >= u {
+				ge++
+			}
+		}
+		sorted := append([]float64(nil), pooled...)
+		sort.Float64s(sorted)
+		ties, allEq := false, true
+		for i := 1; i < n; i++ {
+			ties = ties || sorted[i] == sorted[i-1]
+			allEq = allEq && sorted[i] == sorted[i-1]
+		}
+		for _, alt := range []LocationHypothesis{LocationLess, LocationGreater, LocationDiffers} {
+			cases++
+			res, err := MannWhitneyUTest(x1, x2, alt)
+			if allEq {
+				if err != ErrSamplesEqual {
+					fail(fmt.Sprintf("MannWhitneyUTest(%v,%v): all pooled values equal, error %v", x1, x2, err))
+				}
+				continue
+			}
+			if err != nil {
+				fail(fmt.Sprintf("MannWhitneyUTest(%v,%v,%v): %v", x1, x2, alt, err))
+				continue
+			}
+			if res.U != u || res.N1 != n1 || res.N2 != n2 {
+				fail(fmt.Sprintf("MannWhitneyUTest(%v,%v): U = %v, pair count %v", x1, x2, res.U, u))
+			}
+			var want float64
+			switch alt {
+			case LocationLess:
+				want = float64(le) / float64(total)
+			case LocationGreater:
+				want = float64(ge) / float64(total)
+			default:
+				if ties {
+					continue // recorded finding D3: exact two-sided p-value with ties
+				}
+				want = math.Min(1, 2*math.Min(float64(le), float64(ge))/float64(total))
+			}
+			if !metaClose(res.P, want, 1e-9) {
+				fail(fmt.Sprintf("MannWhitneyUTest(%v,%v,%v): P = %v, exact conditional probability %v (%d relabellings)", x1, x2, alt, res.P, want, total))
+			}
+		}
+	}
+	if nfail > 0 {
+		t.Fatalf("%d failures", nfail)
+	}
+	fmt.Printf("BOUNDED-OK cases=%d\n", cases)
+}
